@@ -49,8 +49,52 @@ def _self_attr(e, attr=None):
             and e.value.id == 'self' and (attr is None or e.attr == attr))
 
 
+def _atom(t, val):
+    while isinstance(t, ast.UnaryOp) and isinstance(t.op, ast.Not):
+        t, val = t.operand, not val
+    return t, val
+
+
+def _member_facts(conds, var_texts):
+    """facts a path knows about membership of the value `var` (given by the
+    texts it may be spelled as): -> (in_colls, notin_colls, none_colls,
+    flags_true) where none_colls are collections known to be None"""
+    u = ast.unparse
+    inc, ninc, none, flags = set(), set(), set(), set()
+    for (t, val) in conds:
+        t, val = _atom(t, val)
+        if isinstance(t, ast.Compare) and len(t.ops) == 1:
+            op, l, r = t.ops[0], t.left, t.comparators[0]
+            if isinstance(op, (ast.In, ast.NotIn)) and u(l) in var_texts:
+                pos = isinstance(op, ast.In) == val
+                (inc if pos else ninc).add(u(r))
+            elif isinstance(op, (ast.Is, ast.IsNot)) and \
+                    isinstance(r, ast.Constant) and r.value is None:
+                isnone = isinstance(op, ast.Is) == val
+                if isnone:
+                    none.add(u(l))
+        elif _self_attr(t) and val:
+            flags.add(u(t))
+    return inc, ninc, none, flags
+
+
+def _alloc_site(ctx, f):
+    """(function, loop) generating candidates via _name_for_id, looked for in
+    f and the package functions it calls"""
+    from .. import norm
+    for (fn, n) in norm.walk_deep(ctx.model, f, list(f.node.body), depth=2):
+        if isinstance(n, (ast.While, ast.For)) and any(
+                isinstance(c, ast.Call) and
+                isinstance(c.func, ast.Attribute) and
+                c.func.attr == '_name_for_id' for c in walk_own(n)):
+            return fn, n
+    return None, None
+
+
 def rule_writeonce(ctx, res):
+    from ..absint.symbody import SymBody
     model = ctx.model
+    u = ast.unparse
     q = FACTORY + '.get_short_name'
     f = model.func(q)
     cfg = cfg_of(f)
@@ -82,206 +126,174 @@ def rule_writeonce(ctx, res):
               q, 'single store site of the name map',
               'one store, inside get_short_name',
               '{} store sites: {}'.format(
-                  len(stores), [s[0].qual for s in stores]), f.loc)
+                  len(stores), [s_[0].qual for s_ in stores]), f.loc)
     res.check(not deletes, 'R-C02-writeonce', q,
               'name map entries are never removed or overwritten in bulk',
               '', 'mutation of the name map at ' + ', '.join(
                   g.module.loc(n) for (g, n) in deletes), f.loc)
-    if len(stores) == 1:
-        g, st, tgt = stores[0]
-        key_ok = isinstance(tgt.slice, ast.Name) and tgt.slice.id == name
-        guard = None
-        for n in cfg.nodes:
-            if n.kind == 'test' and isinstance(n.ast, ast.Compare) and \
-                    len(n.ast.ops) == 1 and \
-                    isinstance(n.ast.ops[0], ast.NotIn) and \
-                    isinstance(n.ast.left, ast.Name) and \
-                    n.ast.left.id == name and \
-                    _self_attr(n.ast.comparators[0], '_name_map'):
-                guard = n
-        dom = guard is not None and all(
-            cfg.edge_dominates(guard, 'true', sn) for sn in cfg.nodes_of(st))
-        res.check(key_ok and dom, 'R-C02-writeonce', q,
-                  'store guarded by `name not in map` on the same key',
-                  'an existing mapping is never overwritten',
-                  'store key is-param={} guarded={}'.format(key_ok, dom),
-                  f.module.loc(st))
-    # the renamed result is the map entry
-    rets = [n for n in cfg.nodes if isinstance(n.ast, ast.Return)]
-    map_rets = [r for r in rets if isinstance(r.ast.value, ast.Subscript) and
-                _self_attr(r.ast.value.value, '_name_map') and
-                isinstance(r.ast.value.slice, ast.Name) and
-                r.ast.value.slice.id == name]
-    ident_rets = [r for r in rets if isinstance(r.ast.value, ast.Name) and
-                  r.ast.value.id == name]
-    other = [r for r in rets if r not in map_rets and r not in ident_rets]
-    res.check(len(map_rets) >= 1 and not other, 'R-C02-writeonce', q,
+    # path view of get_short_name
+    paths = SymBody(ctx, f, no_inline={'_name_for_id'}).run(f.node.body)
+    MAP = 'self._name_map'
+    absent_texts = ('{} not in {}'.format(name, MAP),)
+    key_ok = guarded = True
+    n_store = 0
+    other_rets = []
+    n_ident = n_map = 0
+    stored_val = None
+    for p in paths:
+        st_ev = [e for e in p.events if e[0] == 'store' and u(e[1]) == MAP]
+        # is the key known to be absent on this path?
+        absent = False
+        for (t, val) in p.conds:
+            t, val = _atom(t, val)
+            tt = u(t)
+            if tt == '{} in {}'.format(name, MAP) and not val:
+                absent = True
+            if tt == '{} not in {}'.format(name, MAP) and val:
+                absent = True
+            if tt == '{}.get({}) is None'.format(MAP, name) and val:
+                absent = True
+            if tt == '{}.get({}) is not None'.format(MAP, name) and not val:
+                absent = True
+        for e in st_ev:
+            n_store += 1
+            if u(e[2]) != name:
+                key_ok = False
+            if not absent:
+                guarded = False
+            stored_val = u(e[3])
+        if p.end == 'return' and p.ret is not None:
+            r = u(p.ret)
+            if r == name:
+                n_ident += 1
+            elif r in ('{}[{}]'.format(MAP, name),
+                       '{}.get({})'.format(MAP, name)):
+                n_map += 1
+            elif st_ev and r == u(st_ev[-1][3]):
+                n_map += 1             # returns the value it just stored
+            else:
+                other_rets.append(r)
+    res.check(key_ok and guarded and n_store >= 1, 'R-C02-writeonce', q,
+              'store guarded by `name not in map` on the same key',
+              'an existing mapping is never overwritten',
+              'store key is-param={} guarded={}'.format(key_ok, guarded),
+              f.loc)
+    res.check(n_map >= 1 and not other_rets, 'R-C02-writeonce', q,
               'result is the input name or its map entry',
-              '{} identity return(s), {} map return(s)'.format(
-                  len(ident_rets), len(map_rets)),
+              '{} identity return path(s), {} map return path(s)'.format(
+                  n_ident, n_map),
               'a return yields something other than name / map[name]: ' +
-              ', '.join(unparse(r.ast) for r in other), f.loc)
-    return f, cfg, name, ident_rets
+              ', '.join(sorted(set(other_rets))[:3]), f.loc)
+    return f, cfg, name, paths, stored_val
 
 
-def _membership_terms(test, var):
-    """Collections C such that the test contains the conjunct `var in C`
-    (possibly as `C is not None and var in C`); plus plain flag attributes
-    -> (set of unparse(C), set of flags)"""
-    colls, flags = set(), set()
-    parts = test.values if (isinstance(test, ast.BoolOp) and
-                            isinstance(test.op, ast.And)) else [test]
-    for p in parts:
-        if isinstance(p, ast.Compare) and len(p.ops) == 1 and \
-                isinstance(p.ops[0], ast.In) and \
-                isinstance(p.left, ast.Name) and p.left.id == var:
-            colls.add(ast.unparse(p.comparators[0]))
-        elif _self_attr(p):
-            flags.add(ast.unparse(p))
-    return colls, flags
-
-
-def _rejection_terms(test, var):
-    """Collections C such that test (the ACCEPT condition) implies
-    var not in C: conjuncts `var not in C` or `(C is None or var not in C)`."""
-    out = set()
-    parts = test.values if (isinstance(test, ast.BoolOp) and
-                            isinstance(test.op, ast.And)) else [test]
-    for p in parts:
-        if isinstance(p, ast.Compare) and len(p.ops) == 1 and \
-                isinstance(p.ops[0], ast.NotIn) and \
-                isinstance(p.left, ast.Name) and p.left.id == var:
-            out.add(ast.unparse(p.comparators[0]))
-        elif isinstance(p, ast.BoolOp) and isinstance(p.op, ast.Or):
-            c_none, c_notin = None, None
-            for q in p.values:
-                if isinstance(q, ast.Compare) and len(q.ops) == 1 and \
-                        isinstance(q.ops[0], ast.Is) and \
-                        isinstance(q.comparators[0], ast.Constant) and \
-                        q.comparators[0].value is None:
-                    c_none = ast.unparse(q.left)
-                elif isinstance(q, ast.Compare) and len(q.ops) == 1 and \
-                        isinstance(q.ops[0], ast.NotIn) and \
-                        isinstance(q.left, ast.Name) and q.left.id == var:
-                    c_notin = ast.unparse(q.comparators[0])
-            if c_notin and (c_none == c_notin) and len(p.values) == 2:
-                out.add(c_notin)
-    return out
-
-
-def rule_fresh(ctx, res, f, cfg, name, ident_rets):
+def rule_fresh(ctx, res, f, cfg, name, paths, stored_val):
+    from ..absint.symbody import SymBody
+    u = ast.unparse
     q = f.qual
-    # K: keep collections
+    # K: the collections whose members are returned unchanged
     keep_colls, keep_flags = set(), set()
-    for r in ident_rets:
-        p = getattr(r.ast, '_parent', None)
-        if isinstance(p, ast.If) and r.ast in p.body:
-            c, fl = _membership_terms(p.test, name)
-            keep_colls |= c
-            keep_flags |= fl
-            if not c and not fl:
-                res.undecided('R-C02-fresh', q, 'keep branch',
-                              'unrecognised keep test ' + unparse(p.test),
-                              f.module.loc(p))
-        else:
-            res.undecided('R-C02-fresh', q, 'identity return',
-                          'identity return outside an if', f.loc)
+    for p in paths:
+        if p.end == 'return' and p.ret is not None and u(p.ret) == name:
+            inc, _ninc, _none, flags = _member_facts(p.conds, {name})
+            if p.conds:
+                t, val = _atom(*p.conds[-1])
+                tt = u(t)
+                if isinstance(t, ast.Compare) and tt.startswith(name + ' in ') \
+                        and val:
+                    keep_colls.add(u(t.comparators[0]))
+                elif _self_attr(t) and val:
+                    keep_flags.add(tt)
+                else:
+                    res.undecided('R-C02-fresh', q, 'keep branch',
+                                  'unrecognised keep test ' + tt[:60], f.loc)
     res.tables['keep_collections'] = sorted(keep_colls)
-    # allocation loop
-    loops = [n for n in walk_own(f.node) if isinstance(n, ast.While)]
-    alloc = None
-    cand = None
-    for lp in loops:
-        for st in lp.body:
-            if isinstance(st, ast.Assign) and isinstance(st.value, ast.Call) \
-                    and isinstance(st.value.func, ast.Attribute) and \
-                    st.value.func.attr == '_name_for_id' and \
-                    isinstance(st.targets[0], ast.Name):
-                alloc, cand = lp, st.targets[0].id
+    fn, alloc = _alloc_site(ctx, f)
     if alloc is None:
         res.vanished('R-C02-fresh', q, 'allocation loop',
                      'loop generating candidates via _name_for_id not found')
         return None
-    brks = [n for n in walk_own(alloc) if isinstance(n, ast.Break)]
-    infinite = isinstance(alloc.test, ast.Constant) and alloc.test.value is True
-    rej = set()
-    shape_ok = infinite and len(brks) == 1
-    if shape_ok:
-        p = getattr(brks[0], '_parent', None)
-        if isinstance(p, ast.If) and brks[0] in p.body and p in alloc.body:
-            rej = _rejection_terms(p.test, cand)
-        else:
-            shape_ok = False
-    if not shape_ok:
+    sym = SymBody(ctx, fn, no_inline={'_name_for_id'})
+    lpaths = sym.run(alloc.body, {})
+    exits = [p for p in lpaths if p.end in ('break', 'return')]
+    conts = [p for p in lpaths if p.end in ('fall', 'continue')]
+    infinite = isinstance(alloc, ast.While) and \
+        isinstance(alloc.test, ast.Constant) and alloc.test.value is True
+    if not infinite or not exits:
         res.undecided('R-C02-fresh', q, 'allocation loop shape',
-                      'expected `while True` with one guarded break',
-                      f.module.loc(alloc))
-        return alloc, cand
-    res.tables['rejection_collections'] = sorted(rej)
+                      'expected `while True` left by break / return',
+                      fn.module.loc(alloc))
+        return fn, alloc, lpaths
+    CAND = 'self._name_for_id(self._next_name_id)'
+    rej_all = None
+    for p in exits:
+        _inc, ninc, none, _fl = _member_facts(p.conds, {CAND})
+        rej = set(ninc) | set(none)
+        rej_all = rej if rej_all is None else (rej_all & rej)
+    res.tables['rejection_collections'] = sorted(rej_all or ())
     for c in sorted(keep_colls):
-        res.check(c in rej, 'R-C02-fresh', q,
+        res.check(c in (rej_all or ()), 'R-C02-fresh', q,
                   'kept collection {} filters generated names'.format(c),
                   'a candidate found in it is rejected',
                   'names in {} are returned unchanged, but a generated '
                   'candidate is not tested against it: a renamed identifier '
                   'can collide with a kept one'.format(c),
-                  f.module.loc(alloc))
-    # the stored value is the accepted candidate
-    st_ok = False
-    for n in walk_own(f.node):
-        if isinstance(n, ast.Assign) and isinstance(
-                n.targets[0], ast.Subscript) and \
-                _self_attr(n.targets[0].value, '_name_map'):
-            st_ok = isinstance(n.value, ast.Name) and n.value.id == cand
+                  fn.module.loc(alloc))
+    # the accepted candidate is what the loop hands on, and what is stored
+    handed = set()
+    for p in exits:
+        if p.end == 'return':
+            handed.add(u(p.ret) if p.ret is not None else None)
+        else:
+            handed |= {u(v) for k, v in p.env.items() if u(v) == CAND}
+    st_ok = handed == {CAND}
+    if fn is f:
+        # the stored value is the local that holds the candidate
+        st_ok = st_ok and stored_val is not None and (
+            stored_val.split('$')[0] in {
+                k for p in exits for k, v in p.env.items() if u(v) == CAND})
+    else:
+        call = 'self.{}()'.format(fn.name)
+        st_ok = st_ok and stored_val == call
     res.check(st_ok, 'R-C02-fresh', q, 'stored value is the accepted candidate',
               '', 'the map does not store the candidate that passed the '
-              'filter', f.module.loc(alloc))
+              'filter (stored: {})'.format(stored_val), fn.module.loc(alloc))
     res.require_min('R-C02-fresh', 3)
-    return alloc, cand
+    return fn, alloc, lpaths
 
 
-def rule_counter(ctx, res, f, cfg, alloc):
+def rule_counter(ctx, res, f, cfg, site):
+    u = ast.unparse
     q = f.qual
     model = ctx.model
-    incs = [n for n in walk_own(alloc) if isinstance(n, ast.AugAssign) and
-            _self_attr(n.target, '_next_name_id')]
-    ok_shape = len(incs) == 1 and isinstance(incs[0].op, ast.Add) and \
-        isinstance(incs[0].value, ast.Constant) and incs[0].value.value == 1
-    if not ok_shape:
-        res.violation('R-C02-counter', q, 'counter += 1 once per iteration',
-                      'expected exactly one `_next_name_id += 1` in the '
-                      'allocation loop, found {}'.format(len(incs)),
-                      f.module.loc(alloc))
-        return
-    inc_nodes = set(cfg.nodes_of(incs[0]))
-    test_nodes = [n for n in cfg.nodes if n.kind == 'test' and
-                  n.ast is alloc.test]
-    brk_nodes = [n for n in cfg.nodes if isinstance(n.ast, ast.Break) and
-                 any(n.ast is b for b in walk_own(alloc))]
-    # no way around the loop, and no way to the break, without the increment
-    bad = False
-    for t in test_nodes:
-        start = cfg.succ_by_label(t, 'true')
-        reach = cfg.reachable_from(start, avoid=inc_nodes)
-        if t in reach or any(b in reach for b in brk_nodes):
-            bad = True
-    res.check(not bad, 'R-C02-counter', q,
+    fn, alloc, lpaths = site
+    CTR = 'self._next_name_id'
+    bad = None
+    gen_ok = True
+    for p in lpaths:
+        if p.end == 'raise':
+            continue
+        sets = [e for e in p.events if e[0] == 'set' and e[1] == CTR]
+        if len(sets) != 1 or u(sets[0][2]) != CTR + ' + 1':
+            bad = 'on a path through the loop the counter is set {} times ' \
+                  '({})'.format(len(sets), [u(e[2]) for e in sets])
+        # every generated candidate comes from the counter before the step
+        for x in [v for v in p.env.values()] + [t for (t, _v) in p.conds]:
+            for c in ast.walk(x):
+                if isinstance(c, ast.Call) and \
+                        isinstance(c.func, ast.Attribute) and \
+                        c.func.attr == '_name_for_id':
+                    if len(c.args) != 1 or u(c.args[0]) != CTR:
+                        gen_ok = False
+    res.check(bad is None, 'R-C02-counter', q,
               'every iteration and every exit passes the increment',
               'two accepted candidates always have different ids',
-              'the counter is not advanced on some path through the loop: '
-              'the same short name can be handed out twice',
-              f.module.loc(incs[0]))
-    # candidate is generated from the counter before it is incremented
-    gen = None
-    for st in alloc.body:
-        if isinstance(st, ast.Assign) and isinstance(st.value, ast.Call) and \
-                isinstance(st.value.func, ast.Attribute) and \
-                st.value.func.attr == '_name_for_id':
-            gen = st
-    arg_ok = gen is not None and len(gen.value.args) == 1 and \
-        _self_attr(gen.value.args[0], '_next_name_id')
-    res.check(arg_ok, 'R-C02-counter', q, 'candidate := name_for_id(counter)',
-              '', 'candidate is not generated from the counter', f.loc)
+              'the counter is not advanced exactly once on some path through '
+              'the loop ({}): the same short name can be handed out '
+              'twice'.format(bad), fn.module.loc(alloc))
+    res.check(gen_ok, 'R-C02-counter', q, 'candidate := name_for_id(counter)',
+              '', 'candidate is not generated from the counter before it is '
+              'advanced', fn.module.loc(alloc))
     # other stores to the counter: only __init__ (= 0)
     others = []
     for g in model.functions.values():
@@ -290,7 +302,8 @@ def rule_counter(ctx, res, f, cfg, alloc):
                 tg = n.targets if isinstance(n, ast.Assign) else [n.target]
                 for t in tg:
                     if isinstance(t, ast.Attribute) and \
-                            t.attr == '_next_name_id' and n is not incs[0]:
+                            t.attr == '_next_name_id' and not any(
+                                n is x for x in walk_own(alloc)):
                         others.append((g, n))
     ok = all(g.name == '__init__' and isinstance(n, ast.Assign) and
              isinstance(n.value, ast.Constant) for (g, n) in others)
@@ -298,6 +311,88 @@ def rule_counter(ctx, res, f, cfg, alloc):
               'counter stored only by __init__ and the loop', '',
               'other stores to the counter: ' + ', '.join(
                   g.module.loc(n) for (g, n) in others), f.loc)
+
+
+def _enum_forms(ctx, f, chars):
+    """positional expansion of _name_for_id, recursive or iterative:
+    -> dict(radix uses, digit table ok, recursion/continuation ok) or None"""
+    from ..absint.symbody import SymBody
+    u = ast.unparse
+    ev = ctx.consts
+    idp = f.params()[1]
+    sym = SymBody(ctx, f, no_inline={'_name_for_id'})
+    radix = len(chars)
+    R = str(radix)
+    TBL = repr(chars)
+    digit = '{}[{} % {}]'.format(TBL, idp, R)
+    quot = ('int({} / {})'.format(idp, R), '{} // {}'.format(idp, R))
+    loops = [n for n in walk_own(f.node) if isinstance(n, (ast.While,
+                                                           ast.For))]
+    if not loops:
+        # recursive form: paths of the whole body
+        ok_rec = ok_base = False
+        for p in sym.run(f.node.body):
+            if p.end != 'return' or p.ret is None:
+                return None
+            big = None
+            for (t, val) in p.conds:
+                t, val = _atom(t, val)
+                tt = u(t)
+                if tt == '{} >= {}'.format(idp, R):
+                    big = val
+                elif tt == '{} < {}'.format(idp, R):
+                    big = not val
+                else:
+                    return None
+            r = u(p.ret)
+            if big is True and r in tuple(
+                    'cls._name_for_id({}) + bytes([{}])'.format(qt, digit)
+                    for qt in quot) + tuple(
+                    'MinifyNameFactory._name_for_id({}) + bytes([{}])'.format(
+                        qt, digit) for qt in quot):
+                ok_rec = True
+            elif big is False and r in ("b'' + bytes([{}])".format(digit),
+                                        'bytes([{}])'.format(digit)):
+                ok_base = True
+            else:
+                return {'ok': False, 'why': 'for id {} {} the name is '
+                        '{}'.format('>=' if big else '<', R, r)}
+        return {'ok': ok_rec and ok_base, 'why': 'recursive form'}
+    if len(loops) != 1 or not isinstance(loops[0], ast.While):
+        return None
+    lp = loops[0]
+    i_lp = f.node.body.index(lp) if lp in f.node.body else None
+    if i_lp is None:
+        return None
+    pre = sym.run(f.node.body[:i_lp])
+    if len(pre) != 1:
+        return None
+    env0 = pre[0].env
+    acc = [e[1] for e in pre[0].events if e[0] == 'bind' and
+           isinstance(e[2], ast.List) and not e[2].elts]
+    if len(acc) != 1:
+        return None
+    acc = acc[0]
+    test = u(sym.S(lp.test, env0))
+    if test not in ('{} >= {}'.format(idp, R),):
+        return {'ok': False, 'why': 'loop continues while ' + test}
+    body = sym.run(lp.body, dict(env0))
+    good = len(body) == 1 and body[0].end == 'fall' and \
+        [u(e[1]) for e in body[0].events] == \
+        ['{}.append({})'.format(acc, digit)] and \
+        u(body[0].env.get(idp)) in quot
+    if not good:
+        return {'ok': False, 'why': 'loop step is not: append {}; id = '
+                'id / {}'.format(digit, R)}
+    post = sym.run(f.node.body[i_lp + 1:], dict(env0))
+    good = len(post) == 1 and post[0].end == 'return' and \
+        [u(e[1]) for e in post[0].events if e[0] == 'call'] == \
+        ['{}.append({})'.format(acc, digit), '{}.reverse()'.format(acc)] and \
+        u(post[0].ret) == 'bytes({})'.format(acc)
+    if not good:
+        return {'ok': False, 'why': 'after the loop: last digit, reverse, '
+                'bytes expected'}
+    return {'ok': True, 'why': 'iterative form'}
 
 
 def rule_enum(ctx, res):
@@ -310,48 +405,18 @@ def rule_enum(ctx, res):
         res.undecided('R-C02-enum', q, 'alphabet', 'NAME_CHARS not constant')
         return
     radix = len(chars)
-    idp = f.params()[1]
-    consts = {'mod': [], 'div': [], 'thr': []}
-
-    def val(e):
-        v = ev.eval_expr(f.module, e, {'cls': None})
-        return v if isinstance(v, int) and not isinstance(v, bool) else None
-    for n in walk_own(f.node):
-        if isinstance(n, ast.BinOp) and isinstance(n.left, ast.Name) and \
-                n.left.id == idp:
-            if isinstance(n.op, ast.Mod):
-                consts['mod'].append(val(n.right))
-            elif isinstance(n.op, (ast.Div, ast.FloorDiv)):
-                consts['div'].append(val(n.right))
-        elif isinstance(n, ast.Compare) and isinstance(n.left, ast.Name) and \
-                n.left.id == idp and len(n.ops) == 1 and \
-                isinstance(n.ops[0], ast.GtE):
-            consts['thr'].append(val(n.comparators[0]))
-    ok = all(len(v) == 1 and v[0] == radix for v in consts.values())
-    res.check(ok, 'R-C02-enum', q, 'radix used consistently',
-              'modulus, divisor and recursion threshold all equal '
-              'len(NAME_CHARS) = {}'.format(radix),
-              'positional expansion is inconsistent: {} vs radix {} -- two '
-              'ids can expand to the same name'.format(consts, radix), f.loc)
-    # the indexed table is NAME_CHARS, recursion on the quotient
-    idx_ok = False
-    rec_ok = False
-    for n in walk_own(f.node):
-        if isinstance(n, ast.Subscript) and isinstance(n.slice, ast.BinOp) \
-                and isinstance(n.slice.op, ast.Mod):
-            v = ev.eval_expr(f.module, n.value, {'cls': None})
-            idx_ok = v == chars
-        if isinstance(n, ast.Call) and isinstance(n.func, ast.Attribute) and \
-                n.func.attr == '_name_for_id':
-            a = n.args[0]
-            inner = a.args[0] if (isinstance(a, ast.Call) and isinstance(
-                a.func, ast.Name) and a.func.id == 'int' and a.args) else a
-            rec_ok = isinstance(inner, ast.BinOp) and isinstance(
-                inner.op, (ast.Div, ast.FloorDiv)) and isinstance(
-                    inner.left, ast.Name) and inner.left.id == idp
-    res.check(idx_ok and rec_ok, 'R-C02-enum', q,
-              'digit = NAME_CHARS[id % radix], prefix = name(id / radix)', '',
-              'digit table or recursion argument changed', f.loc)
+    r = _enum_forms(ctx, f, chars)
+    if r is None:
+        res.undecided('R-C02-enum', q, 'positional expansion',
+                      'neither the recursive nor the iterative form of a '
+                      'base-{} expansion was recognised'.format(radix), f.loc)
+    else:
+        res.check(r['ok'], 'R-C02-enum', q,
+                  'name(id) = name(id / radix) + NAME_CHARS[id % radix], '
+                  'radix = len(NAME_CHARS) throughout',
+                  '{}, radix {}'.format(r['why'], radix),
+                  'positional expansion is inconsistent ({}): two ids can '
+                  'expand to the same name'.format(r['why']), f.loc)
     res.check(len(set(chars)) == len(chars), 'R-C02-enum',
               FACTORY + '.NAME_CHARS', 'alphabet has no duplicate byte',
               '{} distinct bytes'.format(len(chars)),
@@ -370,7 +435,7 @@ def rule_enum(ctx, res):
               'alphabet inside the lexer\'s name-start class',
               'every generated name lexes as one name token',
               'bytes {} cannot start a name for the lexer'.format(bad))
-    res.require_min('R-C02-enum', 4)
+    res.require_min('R-C02-enum', 3)
 
 
 def rule_reserved(ctx, res):
@@ -416,7 +481,12 @@ def rule_reserved(ctx, res):
                  and n.func.attr == 'strip' for n in walk_own(f.node))
     adds = [n for n in walk_own(f.node) if isinstance(n, ast.Call) and
             isinstance(n.func, ast.Attribute) and n.func.attr == 'add']
-    res.check(strips and len(adds) == 1, 'R-C02-reserved', q,
+    collects = len(adds) == 1 or any(
+        isinstance(n, ast.SetComp) or (
+            isinstance(n, ast.Call) and isinstance(n.func, ast.Name) and
+            n.func.id in ('set', 'frozenset') and n.args)
+        for n in walk_own(f.node))
+    res.check(strips and collects, 'R-C02-reserved', q,
               'lines stripped and collected', '',
               'keep-file lines are not stripped / collected', f.loc)
     res.require_min('R-C02-reserved', 5)
@@ -496,11 +566,10 @@ def rule_factory(ctx, res):
 
 
 def run(ctx, res):
-    r = rule_writeonce(ctx, res)
-    f, cfg, name, ident_rets = r
-    al = rule_fresh(ctx, res, f, cfg, name, ident_rets)
-    if al is not None:
-        rule_counter(ctx, res, f, cfg, al[0])
+    f, cfg, name, paths, stored_val = rule_writeonce(ctx, res)
+    site = rule_fresh(ctx, res, f, cfg, name, paths, stored_val)
+    if site is not None:
+        rule_counter(ctx, res, f, cfg, site)
     rule_enum(ctx, res)
     rule_reserved(ctx, res)
     rule_factory(ctx, res)
